@@ -36,6 +36,20 @@ func genLen(r *vu.Rng, big bool) int {
 	}
 }
 
+// key4 draws a 4-byte masking key; the all-zero key and keys with zero bytes are legal and must be
+// treated as "masked" (a key whose bytes are all zero must not be confused with "no key").
+func key4(r *vu.Rng) []byte {
+	switch r.Intn(10) {
+	case 0:
+		return []byte{0, 0, 0, 0}
+	case 1:
+		k := r.Bytes(4)
+		k[r.Intn(4)] = 0
+		return k
+	}
+	return r.Bytes(4)
+}
+
 func genKey(r *vu.Rng) string {
 	switch r.Intn(12) {
 	case 0:
@@ -43,7 +57,7 @@ func genKey(r *vu.Rng) string {
 	case 1:
 		return vu.Hex(r.Bytes(r.Intn(7))) // wrong-length keys (and "-" = empty, non-nil)
 	default:
-		return vu.Hex(r.Bytes(4))
+		return vu.Hex(key4(r))
 	}
 }
 
@@ -127,7 +141,7 @@ func gen(r *vu.Rng, i int) []string {
 		if r.Chance(1, 30) {
 			form = 64
 		}
-		f := rawFrame(r.Bool(), r.Intn(8), r.Intn(16), r.Bool(), r.Bytes(4), payload, decl, form)
+		f := rawFrame(r.Bool(), r.Intn(8), r.Intn(16), r.Bool(), key4(r), payload, decl, form)
 		if form == 64 && r.Chance(1, 4) {
 			f[2] |= 0x80 // MSB of the 64-bit length must be ignored
 		}
@@ -175,7 +189,7 @@ func genSession(r *vu.Rng, i int) string {
 		if op >= 8 && r.Chance(3, 4) {
 			n = r.Intn(126)
 		}
-		stream = append(stream, rawFrame(!r.Chance(1, 10), 0, op, masked, r.Bytes(4), r.Bytes(n), int64(n), 0)...)
+		stream = append(stream, rawFrame(!r.Chance(1, 10), 0, op, masked, key4(r), r.Bytes(n), int64(n), 0)...)
 	}
 	if r.Chance(1, 8) {
 		stream = stream[:r.Intn(len(stream)+1)]
